@@ -40,7 +40,7 @@ func (c15) Assumptions() []string {
 }
 func (p c15) NumCases(c *run.Ctx) int {
 	if c.Tier == "thorough" {
-		return 3000
+		return 20000
 	}
 	return 240
 }
